@@ -1,6 +1,6 @@
 \* job hll (C03, C06): the contract and the C06 clauses; clauses named C09:... are not enforced here (see TraceHll.tla)
 SPECIFICATION TSpec
-CONSTANTS Ids = {} LgKs = {} Coupons = {} Bigs = {} TrackFed = FALSE Strict09 = FALSE SkPrefix = ""
+CONSTANTS Ids = {} LgKs = {} Coupons = {} Bigs = {} TrackFed = FALSE CheckDesign = FALSE Strict09 = FALSE SkPrefix = ""
 INVARIANT TInv
 POSTCONDITION Accepted
 CHECK_DEADLOCK FALSE
